@@ -82,6 +82,9 @@ structure Mon where
   lastHi : Int := 0         -- Presence is sampled at joins, ticks and API starts - the instants at which the group
                             -- looks - and the creation of the group (time 0) counts as the first sample.
   stopped : Bool := false   -- stop / kick answered "done" since the current attempt started
+  since : Nat := 0          -- attempts the MONITOR counted since the last API stop / successful kick (the implementation's
+                            -- own counter is not trusted for the budget rule; an auto-stop tick resets only the latter,
+                            -- which can make the implementation more permissive than this count, never less)
   pushSrc : Bool := false   -- the accepted publisher is RTMP or RTSP
   hasPub : Bool := false
   pubCount : Nat := 0       -- publishers accepted so far
@@ -106,22 +109,25 @@ def monStep (m : Mon) (st : Step) : Mon :=
       let m := m.req (c.retry < 0 || (c.count : Int) ≤ c.retry + 1) "attempt-beyond-retry-budget"
       let m := m.req (c.auto < 0 || c.hasOut || (c.auto > 0 && st.t0 - m.lastHi < c.auto)) "attempt-without-consumer-in-window"
       let m := m.req sampling "attempt-from-unexpected-event"
-      { m with stopped := false }
+      { m with stopped := false, since := m.since + 1 }
     else m
   -- (b) API answers
   let m :=
     if name == "AS" then
       let m := m.req ((st.res == "ok") == started) "api-start-answer-differs-from-what-happened"
       let m := m.req (st.res != "dup" || p.hasIn || p.pulling) "api-start-says-duplicate-without-input-or-attempt"
-      m.req (st.res != "lim" || (c.retry ≥ 0 && (c.count : Int) > c.retry)) "api-start-says-retry-limited-with-budget-left"
+      let m := m.req (st.res != "lim" || (c.retry ≥ 0 && (c.count : Int) > c.retry)) "api-start-says-retry-limited-with-budget-left"
+      -- the budget counts attempts since the last stop: a start after a stop is never refused for the attempts made before it
+      m.req (st.res != "lim" || (c.retry ≥ 0 && (m.since : Int) > c.retry)) "api-start-says-retry-limited-although-stopped-since"
     else if name == "AX" then
       let m := m.req (!c.api) "api-stop-leaves-pull-enabled"
       let m := m.req ((st.res == "stopped") == (p.attached || p.wanted)) "api-stop-answer-differs-from-what-happened"
       let m := m.req (!c.attached && !c.wanted) "api-stop-leaves-a-session"
+      let m := { m with since := 0 }
       if p.pulling then { m with stopped := true } else m
     else if name == "K" then
       let m := m.req (st.res != "1" || (!c.attached && !c.wanted && !c.api)) "kick-answered-done-but-session-stays"
-      if st.res == "1" then { m with stopped := true } else m
+      if st.res == "1" then { m with stopped := true, since := 0 } else m
     else m
   -- (c) an attempt that was stopped or kicked while connecting never attaches
   let m := if c.attached && !p.attached then
